@@ -155,10 +155,23 @@ def _shard(arg):
         pos = [[draw(st.integers(-4000, 4000)) / 100 for _ in range(3)] for _ in range(K)]
         quats = []
         for _ in range(K):
-            q = [draw(st.integers(-100, 100)) for _ in range(4)]
-            if not any(q):
-                q = [0, 0, 0, 1]
-            quats.append(q)
+            kind = draw(st.sampled_from(["generic", "generic", "small_angle", "small_angle", "half_turn", "identity"]))
+            if kind == "generic":
+                q = [draw(st.integers(-100, 100)) for _ in range(4)]
+                if not any(q):
+                    q = [0, 0, 0, 1]
+            else:
+                axis = [draw(st.integers(-10, 10)) for _ in range(3)]
+                if not any(axis):
+                    axis = [0, 0, 1]
+                axis = np.array(axis, dtype=float) / np.linalg.norm(axis)
+                # rotation angles over many orders of magnitude: tiny but non-zero rotations are legitimate grid rows
+                angle = {"small_angle": 10.0 ** (draw(st.integers(-60, -5)) / 10),
+                         "half_turn": np.pi, "identity": 0.0}[kind]
+                q = list(np.sin(angle / 2) * axis) + [float(np.cos(angle / 2))]
+                if draw(st.booleans()):
+                    q = [-x for x in q]  # -q is the same rotation
+            quats.append([float(x) for x in q])
         return {"kind": "array", "positions": pos, "quats": quats}
 
     def builder(res, fail):
@@ -170,8 +183,10 @@ def _shard(arg):
             arr = grid_array_of(case)
             angles = 2 * np.arccos(np.clip(np.abs(arr[:, 6] / np.linalg.norm(arr[:, 3:], axis=1)), 0, 1))
             nontrivial = sc in ("planar", "generic") and angles.max() > 0.1
+            small = bool(((angles > 1e-5) & (angles < 1e-2)).any()) or bool(((2 * np.pi - angles > 1e-5) & (2 * np.pi - angles < 1e-2)).any())
             res.case(sample=case, nontrivial=nontrivial, key=case,
-                     classes=[f"m2={sc}", f"grid={grid['kind']}", f"fmt={m1['fmt']}+{m2['fmt']}"])
+                     classes=[f"m2={sc}", f"grid={grid['kind']}", f"fmt={m1['fmt']}+{m2['fmt']}"]
+                     + (["has_small_nonzero_rotation(1e-5..1e-2 rad)"] if small else []))
             if msgs:
                 fail(case, "; ".join(msgs[:3]))
         return test
